@@ -517,6 +517,24 @@ let handle (req : sexp) : String.t =
          literals or <m>e-<k>); null where a number is not a non-negative decimal fraction in lowest terms *)
       let one e = (match render_expr (expr_of e) with Some s -> jstr (os s) | None -> "null") in
       jobj ["status", jstr "ok"; "texts", jlist one (lst es)]
+  | L [A "parselines"; cases] ->
+      (* Line.parse_line on the characters of an assignment line (name = expression [# comment]) against the name and the
+         expression of Lark's tree; a line that is read is written again by Line.write_line and read back *)
+      let one = function
+        | L [A src; A name; exp] ->
+            (match parse_line (cs src) with
+             | None -> jobj ["verdict", jstr "model-rejects"; "comment", "null"; "roundtrip", jbool true]
+             | Some ((x, e), cm) ->
+               let ok = (os x = name) && expr_eqb e (expr_of exp) in
+               let rt = (match write_line x e cm with
+                 | Some s2 -> (match parse_line s2 with
+                     | Some ((x2, e2), cm2) -> os x2 = os x && expr_eqb e e2 && cm2 = cm
+                     | None -> false)
+                 | None -> true) in
+               jobj ["verdict", jstr (if ok then "agree" else "differ");
+                     "comment", (match cm with Some c -> jstr (os c) | None -> "null"); "roundtrip", jbool rt])
+        | _ -> bad "parselines case" in
+      jobj ["status", jstr "ok"; "results", jlist one (lst cases)]
   | L [A "symrhs"; A tries; inp] ->
       (* sympytools.rhs_matrix / jacobi_matrix of the mirror, evaluated at an input point *)
       let o = the_ode () in
